@@ -8,3 +8,4 @@ void *superlu_malloc(size_t size) { void *p = malloc(size); __CPROVER_assume(p !
 void superlu_free(void *p) { g_n_free++; free(p); }
 int_t *intMalloc(int_t n) { return (int_t *)superlu_malloc((size_t)n * sizeof(int_t)); }
 @T@ *@T@Malloc(int_t n) { return (@T@ *)superlu_malloc((size_t)n * sizeof(@T@)); }
+int_t *intCalloc(int_t n) { int_t *p = (int_t *)calloc((size_t)n, sizeof(int_t)); __CPROVER_assume(p != (int_t *)0); g_n_malloc++; return p; }
